@@ -131,8 +131,7 @@ def checkStep (c : Case) (st : St) (op : Op) (s : StepObs) : St × Option String
   let st2 : St := match op with
     | .startDeferral f =>
         { st1 with deferring := f :: st1.deferring.erase f
-                   outside := if hasFam st.full f || !(famLoc s.fams f).isEmpty then f :: st1.outside.erase f
-                              else st1.outside }
+                   outside := if hasFam st.full f then f :: st1.outside.erase f else st1.outside }
     | .endDeferral f => { st1 with deferring := st1.deferring.erase f }
     | _ => st1
   -- ending a deferral announces every prefix that has an exportable path
